@@ -774,6 +774,76 @@ func (g *Gen) floatMacro(c int, hash bool) []Op {
 	return ops
 }
 
+
+// ---- COPY / RENAME carry a complete, independent value: build a key of a known type, copy or rename
+// it, change ONE side in place (overwrite of an existing field / element / member / byte included),
+// look at both sides ----
+func (g *Gen) copyMacro(c int) []Op {
+	src, dst := g.key(), g.key()
+	var ops []Op
+	ops = append(ops, mkOp(c, "DEL", src))
+	var writes [][]string
+	side := func() string { return g.pick(src, dst, dst) }
+	switch g.r.Intn(4) {
+	case 0:
+		ops = append(ops, mkOp(c, "HSET", src, "f1", "1", "f2", "x", "f3", "y"))
+		writes = [][]string{{"HSET", side(), "f1", "changed"}, {"HINCRBY", side(), "f1", "5"}, {"HSET", side(), "fnew", "n"}, {"HDEL", side(), "f2"}, {"HSETNX", side(), "f3", "z"}, {"HMSET", side(), "f2", "q", "f3", "q"}}
+	case 1:
+		ops = append(ops, mkOp(c, "RPUSH", src, "a", "b", "c"))
+		writes = [][]string{{"LSET", side(), "0", "z"}, {"LSET", side(), "-1", "z"}, {"RPUSH", side(), "d"}, {"LPOP", side()}, {"LINSERT", side(), "BEFORE", "b", "n"}, {"LREM", side(), "0", "b"}, {"LTRIM", side(), "1", "-1"}}
+	case 2:
+		ops = append(ops, mkOp(c, "SADD", src, "m1", "m2", "m3"))
+		writes = [][]string{{"SREM", side(), "m1"}, {"SADD", side(), "m9"}, {"SMOVE", side(), "nokey_set", "m2"}, {"SADD", side(), "m1"}}
+	default:
+		ops = append(ops, mkOp(c, "SET", src, "hello"))
+		writes = [][]string{{"APPEND", side(), "!"}, {"SETRANGE", side(), "0", "J"}, {"SETBIT", side(), "7", "1"}, {"INCR", side()}, {"BITFIELD", side(), "SET", "u8", "0", "65"}}
+	}
+	if g.chance(0.5) {
+		ops = append(ops, mkOp(c, "EXPIRE", src, g.farTTL(1000)))
+	}
+	if g.chance(0.75) {
+		ops = append(ops, mkOp(c, "COPY", src, dst, "REPLACE"))
+	} else {
+		ops = append(ops, mkOp(c, "DEL", dst), mkOp(c, g.pick("RENAME", "RENAMENX", "COPY"), src, dst))
+	}
+	for j := 0; j < 1+g.r.Intn(3); j++ {
+		ops = append(ops, mkOp(c, writes[g.r.Intn(len(writes))]...))
+	}
+	for _, k := range []string{src, dst} {
+		ops = append(ops, mkOp(c, "TYPE", k), mkOp(c, "TTL", k), mkOp(c, "HGETALL", k), mkOp(c, "LRANGE", k, "0", "-1"), mkOp(c, "SMEMBERS", k), mkOp(c, "GET", k))
+	}
+	return ops
+}
+
+
+// ---- BITPOS / BITCOUNT on strings whose tail (or head) is all ones or all zeros: the implicit
+// padding rules differ between "no range", "start only" and "start and end" ----
+func (g *Gen) bitposMacro(c int) []Op {
+	k := g.key()
+	v := g.pick("\xff\xff\xff", "\x0f\xff\xff", "\xff", "\x00\x00", "\x00\xff", "\xff\x00", "\xff\xfe", "\x7f\xff", "\x00", "", "\xff\xff\xff\xff\xff\xff\xff\xff\xff")
+	ops := []Op{mkOp(c, "SET", k, v)}
+	if v == "" {
+		ops = []Op{mkOp(c, "DEL", k)}
+	}
+	for j := 0; j < 3+g.r.Intn(5); j++ {
+		bit := g.pick("0", "1")
+		switch g.r.Intn(6) {
+		case 0:
+			ops = append(ops, mkOp(c, g.kw("bitpos"), k, bit))
+		case 1, 2:
+			ops = append(ops, mkOp(c, g.kw("bitpos"), k, bit, g.pick("0", "1", "2", "-1", "-2", "-3", "3", "9")))
+		case 3:
+			ops = append(ops, mkOp(c, g.kw("bitpos"), k, bit, g.pick("0", "1", "-2"), g.pick("-1", "0", "1", "2", "9")))
+		case 4:
+			ops = append(ops, mkOp(c, g.kw("bitpos"), k, bit, g.pick("0", "3", "8", "-9", "-1"), g.pick("-1", "7", "12", "23", "99"), "BIT"))
+		default:
+			ops = append(ops, mkOp(c, g.kw("bitcount"), k, g.pick("0", "1", "-1", "-2"), g.pick("-1", "0", "5", "11"), g.pick("BIT", "BYTE")))
+		}
+	}
+	ops = append(ops, mkOp(c, "GET", k))
+	return ops
+}
+
 func (g *Gen) counterBoundary(c int) []Op {
 	k := g.key()
 	max := new(big.Int).Sub(new(big.Int).Lsh(big.NewInt(1), 63), big.NewInt(1))
